@@ -65,7 +65,11 @@ static void pair_case(Out &o, Gen &G, bool thorough) {
   }
   // "lone extreme at the ends": one shared point alone reaches the top of the box in x, everything else stays in the lower 40 %, and that
   // point is placed first or last in each geometry (loops that scan values for a width or a bit length must visit every element)
-  const bool ends = r.chance(20); auto squeeze = [&](float x) { return origin[0] + (x - origin[0]) * 0.4f; };
+  // "ramp": all points lie on a slowly rising line in all three coordinates and keep their order, so with delta prediction only the FIRST
+  // coded value is large (its correction is the value itself) and every later correction is small
+  const bool ramp = r.chance(15);
+  if (ramp) { float t0 = 0.2f + 0.3f * (float)G.u01(); for (size_t i = 0; i < shared.size(); i++) for (int c = 0; c < 3; c++) { float x = origin[c] + range * ((c == 0 ? t0 : 0.002f * (float)c) + 0.004f * (float)i * (float)(c + 1)); if (in_box(c, x)) shared[i][c] = x; } }   // only x starts high: the very first coded value is the lone large one
+  const bool ends = !ramp && r.chance(20); auto squeeze = [&](float x) { return origin[0] + (x - origin[0]) * 0.4f; };
   if (ends) { for (auto &p : shared) p[0] = squeeze(p[0]); float top = origin[0] + range; if (!in_box(0, top)) top = nextafterf(top, -INFINITY); if (in_box(0, top)) shared[0][0] = top; }
   Enc e[2];
   for (int s = 0; s < 2; s++) {
@@ -75,7 +79,8 @@ static void pair_case(Out &o, Gen &G, bool thorough) {
     std::vector<std::array<float, 3>> pts = shared;
     for (int i = 0; i < extra; i++) { std::array<float, 3> p; for (int c = 0; c < 3; c++) p[c] = inside(c); if (ends) p[0] = squeeze(p[0]); pts.push_back(p); }
     // independent order
-    for (size_t i = pts.size(); i > 1; i--) std::swap(pts[i - 1], pts[r.below(i)]);
+    if (ramp) { pts = shared; float t0 = (shared[0][0] - origin[0]) / range; for (int i = 0; i < extra; i++) { std::array<float, 3> p; size_t j = shared.size() + (size_t)i; for (int c = 0; c < 3; c++) { float x = origin[c] + range * ((c == 0 ? t0 : 0.002f * (float)c) + 0.004f * (float)j * (float)(c + 1) + (s ? 0.0007f : 0.f)); p[c] = in_box(c, x) ? x : inside(c); } pts.push_back(p); } }
+    else for (size_t i = pts.size(); i > 1; i--) std::swap(pts[i - 1], pts[r.below(i)]);
     if (ends) { size_t at = 0; for (size_t i = 0; i < pts.size(); i++) if (pts[i] == shared[0]) at = i; std::swap(pts[at], pts[r.chance(50) ? 0 : pts.size() - 1]); }
     Geo &g = e[s].g; g.nc = 3;
     for (auto &p : pts) for (int c = 0; c < 3; c++) g.flat.push_back(p[c]);
